@@ -36,6 +36,9 @@ def _rt_object(ctx, flavour):
     return out
 
 
+marks_events = {}
+
+
 class BuildFailure(Exception):
     def __init__(self, stage, text):
         Exception.__init__(self, stage + ': ' + text[-1500:]); self.stage = stage; self.text = text
@@ -82,7 +85,7 @@ class Cfg:
         self.place = kw.get('place', 'cyclic'); self.pseed = kw.get('pseed', 1); self.ts = kw.get('ts', 1)
         self.again = kw.get('again', (0, 1)); self.sleep = kw.get('sleep', (0, 200)); self.seed = kw.get('seed', 1)
         self.mca = dict(kw.get('mca', {})); self.scenario = kw.get('scenario', 'together'); self.yield_ = kw.get('yield_', None)
-        self.flavour = kw.get('flavour', 'asan'); self.env = dict(kw.get('env', {}))
+        self.flavour = kw.get('flavour', 'asan'); self.env = dict(kw.get('env', {})); self.table = kw.get('table'); self.events = kw.get('events', 0)
 
     def ident(self):
         return (self.flavour, self.sched, self.cores, self.ranks, self.place, self.pseed, self.ts, self.again, self.sleep, self.scenario,
@@ -100,11 +103,11 @@ class Cfg:
 
 def run_program(ctx, exe, nk, cfg, outdir, tag, timeout=240, stall_s=45):
     os.makedirs(outdir, exist_ok=True)
-    table = placement_table(nk, cfg.ranks, cfg.place, cfg.pseed)
+    table = list(cfg.table) if cfg.table else placement_table(nk, cfg.ranks, cfg.place, cfg.pseed)
     pf = os.path.join(outdir, 'place.txt')
     open(pf, 'w').write(' '.join(str(x) for x in table) + '\n')
     cmd = [exe, '--cores', str(cfg.cores), '--nk', str(nk), '--ts', str(cfg.ts), '--seed', str(cfg.seed), '--again', '%d:%d' % cfg.again,
-           '--sleep', '%d:%d' % cfg.sleep, '--out', outdir, '--place', pf, '--scenario', cfg.scenario, '--', '--mca', 'mca_sched', cfg.sched]
+           '--sleep', '%d:%d' % cfg.sleep, '--out', outdir, '--place', pf, '--scenario', cfg.scenario, '--events', str(cfg.events), '--', '--mca', 'mca_sched', cfg.sched]
     for k, v in sorted(cfg.mca.items()): cmd += ['--mca', k, str(v)]
     env = dict(cfg.env)
     if cfg.yield_: env['PARSEC_VERIF_YIELD'] = cfg.yield_
@@ -116,6 +119,7 @@ def run_program(ctx, exe, nk, cfg, outdir, tag, timeout=240, stall_s=45):
 def load_logs(outdir, ranks):
     """-> (records, finals{key:(val,bad)}, marks[(rank,kind,a,b,stamp)], complete: bool)"""
     recs = []; finals = {}; marks = []; complete = True
+    events = []
     for rk in range(ranks):
         lf = os.path.join(outdir, 'log.%d.bin' % rk); ff = os.path.join(outdir, 'final.%d.txt' % rk)
         if not (os.path.exists(lf) and os.path.exists(ff)):
@@ -131,8 +135,11 @@ def load_logs(outdir, ranks):
             w = l.split()
             if w[0] == 'F': finals[int(w[1])] = (int(w[2]), int(w[3]))
             elif w[0] == 'M': marks.append((rk, int(w[1]), int(w[2]), int(w[3]), int(w[4])))
+            elif w[0] == 'E': events.append(dict(rank=rk, kind=int(w[1]), peer=int(w[2]), root=int(w[3]), cid=int(w[4]), tpid=int(w[5]), cls=w[6],
+                                                  l=tuple(int(x) for x in w[7:11]), mask=int(w[11]), stamp=int(w[12])))
             elif w[0] == 'END': ended = True
         if not ended: complete = False
+    marks_events[outdir] = events
     return recs, finals, marks, complete
 
 
